@@ -6,6 +6,8 @@ import (
 	"encoding/json"
 	"fmt"
 	"io"
+	"net/http"
+	"net/http/httptest"
 	"os"
 	"os/exec"
 	"path/filepath"
@@ -343,5 +345,92 @@ func c18AdminWriter(c *vlib.Ctx, root string) {
 			}
 		}
 		_ = os.RemoveAll(dir)
+	}
+}
+
+// c18MCPReloadVerdict: MCP config_apply / management tools in write_and_reload
+// mode write the candidate and then ask the instance's admin health endpoint
+// (address, prefix and token of the CANDIDATE) whether it took the file over.
+// Only a 200 says so. Any other answer - 401 (old token still in force), 403,
+// 404 (old prefix still in force), a redirect, 5xx, nothing listening - means
+// the reload was not applied: the previous bytes must be back in the file and
+// the result must not claim success.
+func c18MCPReloadVerdict(c *vlib.Ctx) {
+	root := c.Scratch()
+	if err := c20MakeTemplate(root); err != nil {
+		c.Inconclusive("C18 mcp verdict template db: " + err.Error())
+		return
+	}
+	row := 900000
+	for _, status := range []int{200, 204, 301, 401, 403, 404, 429, 500, 503, 0} {
+		for _, tool := range []string{"config_apply", "management_endpoint_upsert"} {
+			row++
+			f, err := c20NewFixture(root, row)
+			if err != nil {
+				c.Inconclusive(err.Error())
+				return
+			}
+			addr := "127.0.0.1:1" // nothing listens there
+			var srv *httptest.Server
+			if status != 0 {
+				st := status
+				srv = httptest.NewServer(http.HandlerFunc(func(w http.ResponseWriter, r *http.Request) {
+					if st == 301 {
+						w.Header().Set("Location", "/elsewhere")
+					}
+					w.WriteHeader(st)
+				}))
+				addr = strings.TrimPrefix(srv.URL, "http://")
+			}
+			// the file the instance runs already names the fake admin address, so that
+			// the management tool (which keeps admin_api as it is) probes it too
+			running := strings.Replace(c20Config, "admin_api { listen 127.0.0.1:18082 }", "admin_api { listen "+addr+" }", 1)
+			_ = os.WriteFile(f.Cfg, []byte(running), 0o644)
+			args := map[string]any{"content": running + "/viaapply { pull { path /pull/viaapply } }\n", "mode": "write_and_reload", "reload_timeout": "300ms"}
+			if tool == "management_endpoint_upsert" {
+				args = map[string]any{"application": "app1", "endpoint_name": "ep2", "route": "/spare", "reason": "verif", "mode": "write_and_reload", "reload_timeout": "300ms"}
+			}
+			before, _ := os.ReadFile(f.Cfg)
+			ro, _, err := c20Call(f, "admin", true, true, "alice", "tools/call", map[string]any{"name": tool, "arguments": args})
+			after, _ := os.ReadFile(f.Cfg)
+			if srv != nil {
+				srv.Close()
+			}
+			if err != nil {
+				c.Inconclusive("C18 mcp verdict call: " + err.Error())
+				_ = os.RemoveAll(f.Dir)
+				continue
+			}
+			text := ""
+			if len(ro.Result.Content) > 0 {
+				text = ro.Result.Content[0].Text
+			}
+			var out struct {
+				OK         bool `json:"ok"`
+				Applied    bool `json:"applied"`
+				Reloaded   bool `json:"reloaded"`
+				RolledBack bool `json:"rolled_back"`
+			}
+			_ = json.Unmarshal([]byte(text), &out)
+			c.Count("evaluations", 1)
+			c.Count("mcp_reload_verdict_trials", 1)
+			c.Distinct("nontrivial", fmt.Sprintf("mcp_reload_verdict:%s:health=%d:ok=%v:file_changed=%v", tool, status, out.OK, string(before) != string(after)))
+			wit := map[string]any{"tool": tool, "health_status": status, "is_error": ro.Result.IsError, "text": text[:minInt(400, len(text))], "file_changed": string(before) != string(after)}
+			if status == 200 {
+				if string(before) == string(after) || ro.Result.IsError {
+					c.Violation(vlib.Signature{"class": "healthy_reload_not_applied", "tool": tool}, fmt.Sprintf("%s write_and_reload with a healthy instance (200) did not keep the new file", tool), wit)
+				}
+			} else {
+				if string(before) != string(after) {
+					c.Violation(vlib.Signature{"class": "file_not_restored_after_failed_reload", "tool": tool, "health": fmt.Sprint(status)},
+						fmt.Sprintf("%s write_and_reload: the health probe answered %d (the instance did not take the file over) but the previous content was not put back", tool, status), wit)
+				}
+				if !ro.Result.IsError && (out.OK || out.Reloaded) {
+					c.Violation(vlib.Signature{"class": "failed_reload_reported_ok", "tool": tool, "health": fmt.Sprint(status)},
+						fmt.Sprintf("%s write_and_reload reports ok/reloaded although the health probe answered %d", tool, status), wit)
+				}
+			}
+			_ = os.RemoveAll(f.Dir)
+		}
 	}
 }
